@@ -164,6 +164,8 @@ fn init_dictionary() -> StandardDataDictionaryRegistry {
     // generic group length is not a generated entry,
     // inserting it manually
     d.by_name.insert("GenericGroupLength", &GROUP_LENGTH_ENTRY);
+    // same for the generic private creator entry
+    d.by_name.insert("PrivateCreator", &PRIVATE_CREATOR_ENTRY);
     d
 }
 
